@@ -27,102 +27,6 @@ Lemma dec_ret : decode (mkI OP_RET []) = DOk DRet.
 Proof. reflexivity. Qed.
 
 (* ================================================================ the activation of a closure-free function *)
-Section Callee.
-Variable prog : program.
-Variable base : list frame.                     (* the caller's frames *)
-Variable name : str.
-Variable code : list instr.
-Hypothesis Hsmall : small (1 + 2 * length code + 8).
-
-Local Notation RstC := (Rst base [] [] [] (fun f : str => f) None).
-Local Notation RgC := (Rg base [] [] [] (fun f : str => f) None).
-Local Notation boundC := (bound_in [] []).
-
-Lemma HL0 : forall f : str, In f [] -> In f (fnames []).
-Proof. intros f []. Qed.
-Lemma HF0 : forall f : str, In f (fnames []) -> uname0 f.
-Proof. intros f []. Qed.
-Lemma HK0 : forall f : str, In f (fnames []) <->
-  assoc f ([] : list (str * (N * N * list scope * option (list (str * N))))) <> None.
-Proof. intros f. cbn. split; [intros []|congruence]. Qed.
-
-(* binding the parameters: `arg k; store p` for each p, vs bind_params *)
-Lemma params_run : forall ps vs k Bk acc pins a g env s allvs,
-  code_at code (2 * k) (pcodeP k ps) -> a_ip a = 2 * k -> a_args a = map inj allvs ->
-  (forall j v, nth_error vs j = Some v -> nth_error allvs (k + j) = Some v) ->
-  RstC pins env s a g -> locals env = [acc] -> boundC Bk env ->
-  NoDup ps -> (forall x, In x ps -> ~ In x Bk) -> forallb src_nameb ps = true ->
-  Forall first_order vs -> length vs = length ps -> small (k + length ps) ->
-  2 * (k + length ps) <= length code ->
-  match bind_params ps vs s acc with
-  | Some (sc, s') => exists a' g' env',
-      xrun prog name code a g a' g' /\ a_ip a' = 2 * (k + length ps) /\ RstC pins env' s' a' g' /\
-      locals env' = [sc] /\ captured env' = captured env /\ cur env' = cur env /\
-      boundC (rev ps ++ Bk) env' /\ act_same a a' /\ a_ss a' = a_ss a
-  | None => False
-  end.
-Proof.
-  induction ps as [|p ps IH]; intros vs k Bk acc pins a g env s allvs Hc Hip Hargs Hnth HR El Hb Hnd Hfresh Hsrc Hfo Hlen Hsm Hend.
-  - destruct vs; [|discriminate]. cbn [bind_params]. exists a, g, env. cbn [length rev app] in *.
-    split; [apply xrun_refl|]. split; [lia|]. split; [exact HR|]. split; [exact El|]. split; [reflexivity|].
-    split; [reflexivity|]. split; [exact Hb|]. split; [apply act_same_refl|reflexivity].
-  - destruct vs as [|v vs]; [discriminate|]. cbn [length] in *. cbn [bind_params].
-    cbn [forallb] in Hsrc. apply Bool.andb_true_iff in Hsrc as [Hsp Hsrc].
-    inversion Hnd as [|? ? Hpn Hnd']; subst. inversion Hfo as [|? ? Hfv Hfo']; subst.
-    cbn [pcodeP] in Hc. apply code_at_cons in Hc as [Hi1 Hc]. apply code_at_cons in Hc as [Hi2 Hc].
-    destruct HR as (HG & Hops & Hss).
-    assert (Hpu : uname [] p) by (apply (uname_of_b [] p Hsp); reflexivity).
-    (* arg k *)
-    set (i1 := mkI OP_ARG [sN k]) in *.
-    set (a1 := set_ip (set_ops a [inj v]) (S (a_ip a))).
-    set (g1 := trc name a g i1).
-    assert (R1 : xrun prog name code a g a1 g1).
-    { eapply (xstep_next prog name code a g i1 _ (a_ip a) (set_ops a [inj v])); [reflexivity|rewrite Hip; exact Hi1| |].
-      - apply dec_arg. eapply small_le; [|exact Hsm]. lia.
-      - unfold exec_d. rewrite Hargs, nth_error_map, (Hnth 0 v eq_refl ltac:(idtac)) || idtac.
-        rewrite Hargs, nth_error_map. replace k with (k + 0) at 1 by lia. rewrite (Hnth 0 v eq_refl). cbn [option_map].
-        now rewrite Hops. }
-    (* store p : the parameter is a fresh name of the function scope *)
-    assert (Hpn0 : lookup_scopes p (locals env) = None).
-    { destruct (lookup_scopes p (locals env)) eqn:E; [|reflexivity]. exfalso.
-      destruct (proj1 (proj1 Hb p) ltac:(congruence)) as [Hin|[]]. exact (Hfresh p (or_introl eq_refl) Hin). }
-    destruct (declare env s p v) as [env1 s1] eqn:Edec.
-    assert (Eas : assign env s p v = (env1, s1)) by (unfold assign; rewrite Hpn0; exact Edec).
-    set (i2 := mkI OP_STORE [p]) in *.
-    destruct (store_rel base [] [] [] (fun f => f) None HK0 env s (trc name a1 g1 i2) p v env1 s1
-                ltac:(apply Rg_trc; apply Rg_trc; exact HG) Hpu Hfv Eas) as (g2 & Hst & HG2 & Hd & Hbx & Htl).
-    set (a2 := set_ip (set_ops a1 []) (S (a_ip a1))).
-    assert (R2 : xrun prog name code a g a2 g2).
-    { eapply xrun_trans; [exact R1|].
-      eapply (xstep_next prog name code a1 g1 i2 _ (a_ip a1) (set_ops a1 [])); [reflexivity| |apply dec_store|].
-      - cbn [a1 set_ip a_ip]. rewrite Hip. replace (S (2 * k)) with (S (2 * k)) by lia. exact Hi2.
-      - unfold exec_d. cbn [a1 set_ip set_ops a_ops]. rewrite Hst. reflexivity. }
-    assert (El1 : locals env1 = [assoc_set p (N.of_nat (length (store s))) acc] /\ captured env1 = captured env /\ cur env1 = cur env /\
-                  s1 = fst (alloc s v)).
-    { unfold declare, alloc in Edec. rewrite El in Edec. inversion Edec. cbn [fst]. auto. }
-    destruct El1 as (El1 & Ec1 & Eu1 & Es1).
-    assert (Ebp : bind_params ps vs (fst (alloc s v)) (assoc_set p (snd (alloc s v)) acc) =
-                  (let '(s0, c0) := alloc s v in bind_params ps vs s0 (assoc_set p c0 acc))) by reflexivity.
-    pose proof (IH vs (S k) (p :: Bk) (assoc_set p (N.of_nat (length (store s))) acc) pins a2 g2 env1 s1 allvs) as IH'.
-    assert (Hb1 : boundC (p :: Bk) env1) by (eapply (bound_in_assign [] []); eassumption).
-    specialize (IH' ltac:(replace (2 * S k) with (S (S (2 * k))) by lia; exact Hc)
-                    ltac:(cbn [a2 a1 set_ip a_ip]; lia) Hargs
-                    ltac:(intros j v0 Hj; replace (S k + j) with (k + S j) by lia; exact (Hnth (S j) v0 Hj))).
-    specialize (IH' ltac:(split; [exact HG2|split; [reflexivity|]]; cbn [a2 a1 set_ip set_ops a_ss];
-                          rewrite (same_tl_length _ _ ltac:(eapply Rg_ne; exact HG) Hd); exact Hss)
-                    El1 Hb1 Hnd'
-                    ltac:(intros x Hx [<-|Hin]; [exact (Hpn Hx)|exact (Hfresh x (or_intror Hx) Hin)])
-                    Hsrc Hfo' ltac:(lia) ltac:(eapply small_le; [|exact Hsm]; lia) ltac:(lia)).
-    unfold alloc at 1. cbn [fst snd]. rewrite Es1 in IH'. unfold alloc in IH'. cbn [fst] in IH'.
-    destruct (bind_params ps vs {| store := store s ++ [v]; rout := rout s |} (assoc_set p (N.of_nat (length (store s))) acc)) as [[sc s']|]; [|exact IH'].
-    destruct IH' as (a' & g' & env' & R' & Hip' & HR' & El' & Ec' & Eu' & Hb' & Ha' & Hss').
-    exists a', g', env'. split; [eapply xrun_trans; [exact R2|exact R']|]. split; [rewrite Hip'; lia|]. split; [exact HR'|].
-    split; [exact El'|]. split; [congruence|]. split; [congruence|]. split.
-    { cbn [rev]. rewrite <- app_assoc. exact Hb'. }
-    split; [destruct Ha' as (A1 & A2 & A3); repeat split; assumption|exact Hss'].
-Qed.
-End Callee.
-
 (* ================================================================ from a run of the activation to run_fn *)
 Lemma run_fn_finish : forall prog name code argv cb g a' g' R,
   assoc name prog = Some code ->
@@ -160,116 +64,240 @@ Proof. intros []. reflexivity. Qed.
 Definition call_pins (s : rstate) (g : gstate) : pinset :=
   {| vpin := fun c w => cell_get g c = Some w; spin := fun c v => sget s c = Some v |}.
 
-Lemma Rst_entry : forall loc argv s g1 cenv fv,
-  out g1 = rout s -> frames_nd (frames g1) ->
-  Rst (frames g1) [] [] [] (fun f : str => f) None (call_pins s g1)
-      {| locals := [[]]; captured := cenv; cur := fv |} s (act0 loc argv None) (push_frame g1 (LFun loc)).
+
+Lemma HL0 : forall (FT : ftab) (f : str), In f [] -> In f (fnames FT).
+Proof. intros FT f []. Qed.
+
+(* the pins of a table of function cells *)
+Definition fpins_of (FT : ftab) (fcells : list (str * (N * N * list scope * option (list (str * N))))) (floc : str -> str) : pinset :=
+  {| vpin := fun c' w => exists f c cenv cbf, assoc f fcells = Some (c, c', cenv, cbf) /\ w = VFun (floc f) cbf;
+     spin := fun c v => exists f c' cenv cbf ps body, assoc f fcells = Some (c, c', cenv, cbf) /\
+                                                     assoc f FT = Some (ps, body) /\ v = RClos ps body cenv |}.
+
+Section Callee.
+Variable prog : program.
+(* the functions the callee sees (through its captured environment / its callback cells) *)
+Variable FT : ftab.
+Variable fcells : list (str * (N * N * list scope * option (list (str * N)))).
+Variable floc : str -> str.
+Variable fpins : pinset.
+Hypothesis Hfun0 : forall f, In f (fnames FT) -> uname0 f.
+Hypothesis Hfck : forall f, In f (fnames FT) <-> assoc f fcells <> None.
+Hypothesis Hgpv : forall f c c' cenv cbf, assoc f fcells = Some (c, c', cenv, cbf) -> vpin fpins c' (VFun (floc f) cbf).
+Hypothesis Hgps : forall f c c' cenv cbf ps body, assoc f fcells = Some (c, c', cenv, cbf) -> assoc f FT = Some (ps, body) ->
+  spin fpins c (RClos ps body cenv).
+Variable cbf : option (list (str * N)).     (* the callee's captured cells *)
+Variable selfv : option rvalue.
+Variable name : str.
+
+Section Params.
+Variable base : list frame.                     (* the caller's frames *)
+Variable code : list instr.
+Hypothesis Hsmall : small (1 + 2 * length code + 8).
+
+Local Notation RstC := (Rst base FT [] fcells cbf selfv name fpins).
+Local Notation boundC := (bound_in FT []).
+
+(* binding the parameters: `arg k; store p` for each p, vs bind_params *)
+Lemma params_run : forall ps vs k Bk acc pins a g env s allvs,
+  code_at code (2 * k) (pcodeP k ps) -> a_ip a = 2 * k -> a_args a = map inj allvs ->
+  (forall j v, nth_error vs j = Some v -> nth_error allvs (k + j) = Some v) ->
+  RstC pins env s a g -> locals env = [acc] -> boundC Bk env ->
+  NoDup ps -> (forall x, In x ps -> ~ In x Bk) -> forallb src_nameb ps = true ->
+  (forall x, In x ps -> ~ In x (fnames FT)) ->
+  Forall first_order vs -> length vs = length ps -> small (k + length ps) ->
+  2 * (k + length ps) <= length code ->
+  match bind_params ps vs s acc with
+  | Some (sc, s') => exists a' g' env',
+      xrun prog name code a g a' g' /\ a_ip a' = 2 * (k + length ps) /\ RstC pins env' s' a' g' /\
+      locals env' = [sc] /\ captured env' = captured env /\ cur env' = cur env /\
+      boundC (rev ps ++ Bk) env' /\ act_same a a' /\ a_ss a' = a_ss a
+  | None => False
+  end.
 Proof.
-  intros loc argv s g1 cenv fv Ho Hnd. split; [|split; [reflexivity|cbn; lia]].
-  constructor; cbn [locals captured store rout cells frames out push_frame with_frames length skipn]; try reflexivity; try assumption.
+  induction ps as [|p ps IH]; intros vs k Bk acc pins a g env s allvs Hc Hip Hargs Hnth HR El Hb Hnd Hfresh Hsrc Hnf Hfo Hlen Hsm Hend.
+  - destruct vs; [|discriminate]. cbn [bind_params]. exists a, g, env. cbn [length rev app] in *.
+    split; [apply xrun_refl|]. split; [lia|]. split; [exact HR|]. split; [exact El|]. split; [reflexivity|].
+    split; [reflexivity|]. split; [exact Hb|]. split; [apply act_same_refl|reflexivity].
+  - destruct vs as [|v vs]; [discriminate|]. cbn [length] in *. cbn [bind_params].
+    cbn [forallb] in Hsrc. apply Bool.andb_true_iff in Hsrc as [Hsp Hsrc].
+    inversion Hnd as [|? ? Hpn Hnd']; subst. inversion Hfo as [|? ? Hfv Hfo']; subst.
+    cbn [pcodeP] in Hc. apply code_at_cons in Hc as [Hi1 Hc]. apply code_at_cons in Hc as [Hi2 Hc].
+    destruct HR as (HG & Hops & Hss).
+    assert (Hpu : uname (fnames FT) p).
+    { apply (uname_of_b FT p Hsp). destruct (mem_str p (fnames FT)) eqn:Em; [|reflexivity].
+      exfalso. exact (Hnf p (or_introl eq_refl) (mem_str_In _ _ Em)). }
+    (* arg k *)
+    set (i1 := mkI OP_ARG [sN k]) in *.
+    set (a1 := set_ip (set_ops a [inj v]) (S (a_ip a))).
+    set (g1 := trc name a g i1).
+    assert (R1 : xrun prog name code a g a1 g1).
+    { eapply (xstep_next prog name code a g i1 _ (a_ip a) (set_ops a [inj v])); [reflexivity|rewrite Hip; exact Hi1| |].
+      - apply dec_arg. eapply small_le; [|exact Hsm]. lia.
+      - unfold exec_d. rewrite Hargs, nth_error_map, (Hnth 0 v eq_refl ltac:(idtac)) || idtac.
+        rewrite Hargs, nth_error_map. replace k with (k + 0) at 1 by lia. rewrite (Hnth 0 v eq_refl). cbn [option_map].
+        now rewrite Hops. }
+    (* store p : the parameter is a fresh name of the function scope *)
+    assert (Hpn0 : lookup_scopes p (locals env) = None).
+    { destruct (lookup_scopes p (locals env)) eqn:E; [|reflexivity]. exfalso.
+      destruct (proj1 (proj1 Hb p) ltac:(congruence)) as [Hin|[]]. exact (Hfresh p (or_introl eq_refl) Hin). }
+    destruct (declare env s p v) as [env1 s1] eqn:Edec.
+    assert (Eas : assign env s p v = (env1, s1)) by (unfold assign; rewrite Hpn0; exact Edec).
+    set (i2 := mkI OP_STORE [p]) in *.
+    destruct (store_rel base FT [] fcells cbf Hfck selfv name fpins env s (trc name a1 g1 i2) p v env1 s1
+                ltac:(apply Rg_trc; apply Rg_trc; exact HG) Hpu Hfv Eas) as (g2 & Hst & HG2 & Hd & Hbx & Htl).
+    set (a2 := set_ip (set_ops a1 []) (S (a_ip a1))).
+    assert (R2 : xrun prog name code a g a2 g2).
+    { eapply xrun_trans; [exact R1|].
+      eapply (xstep_next prog name code a1 g1 i2 _ (a_ip a1) (set_ops a1 [])); [reflexivity| |apply dec_store|].
+      - cbn [a1 set_ip a_ip]. rewrite Hip. replace (S (2 * k)) with (S (2 * k)) by lia. exact Hi2.
+      - unfold exec_d. cbn [a1 set_ip set_ops a_ops]. rewrite Hst. reflexivity. }
+    assert (El1 : locals env1 = [assoc_set p (N.of_nat (length (store s))) acc] /\ captured env1 = captured env /\ cur env1 = cur env /\
+                  s1 = fst (alloc s v)).
+    { unfold declare, alloc in Edec. rewrite El in Edec. inversion Edec. cbn [fst]. auto. }
+    destruct El1 as (El1 & Ec1 & Eu1 & Es1).
+    assert (Ebp : bind_params ps vs (fst (alloc s v)) (assoc_set p (snd (alloc s v)) acc) =
+                  (let '(s0, c0) := alloc s v in bind_params ps vs s0 (assoc_set p c0 acc))) by reflexivity.
+    pose proof (IH vs (S k) (p :: Bk) (assoc_set p (N.of_nat (length (store s))) acc) pins a2 g2 env1 s1 allvs) as IH'.
+    assert (Hb1 : boundC (p :: Bk) env1) by (eapply (bound_in_assign FT []); eassumption).
+    specialize (IH' ltac:(replace (2 * S k) with (S (S (2 * k))) by lia; exact Hc)
+                    ltac:(cbn [a2 a1 set_ip a_ip]; lia) Hargs
+                    ltac:(intros j v0 Hj; replace (S k + j) with (k + S j) by lia; exact (Hnth (S j) v0 Hj))).
+    specialize (IH' ltac:(split; [exact HG2|split; [reflexivity|]]; cbn [a2 a1 set_ip set_ops a_ss];
+                          rewrite (same_tl_length _ _ ltac:(eapply Rg_ne; exact HG) Hd); exact Hss)
+                    El1 Hb1 Hnd'
+                    ltac:(intros x Hx [<-|Hin]; [exact (Hpn Hx)|exact (Hfresh x (or_intror Hx) Hin)])
+                    Hsrc ltac:(intros x Hx; exact (Hnf x (or_intror Hx))) Hfo' ltac:(lia) ltac:(eapply small_le; [|exact Hsm]; lia) ltac:(lia)).
+    unfold alloc at 1. cbn [fst snd]. rewrite Es1 in IH'. unfold alloc in IH'. cbn [fst] in IH'.
+    destruct (bind_params ps vs {| store := store s ++ [v]; rout := rout s |} (assoc_set p (N.of_nat (length (store s))) acc)) as [[sc s']|]; [|exact IH'].
+    destruct IH' as (a' & g' & env' & R' & Hip' & HR' & El' & Ec' & Eu' & Hb' & Ha' & Hss').
+    exists a', g', env'. split; [eapply xrun_trans; [exact R2|exact R']|]. split; [rewrite Hip'; lia|]. split; [exact HR'|].
+    split; [exact El'|]. split; [congruence|]. split; [congruence|]. split.
+    { cbn [rev]. rewrite <- app_assoc. exact Hb'. }
+    split; [destruct Ha' as (A1 & A2 & A3); repeat split; assumption|exact Hss'].
+Qed.
+End Params.
+
+Lemma Rst_entry : forall argv s g1 cenv,
+  selfv <> None ->
+  out g1 = rout s -> frames_nd (frames g1) -> fvals fpins s g1 ->
+  (forall f c c' ce cb', assoc f fcells = Some (c, c', ce, cb') ->
+     lookup_scopes f cenv = Some c /\ exists m, cbf = Some m /\ assoc f m = Some c') ->
+  Rst (frames g1) FT [] fcells cbf selfv name fpins (call_pins s g1)
+      {| locals := [[]]; captured := cenv; cur := selfv |} s (act0 name argv cbf) (push_frame g1 (LFun name)).
+Proof.
+  intros argv s g1 cenv _ Ho Hnd [Fv Fs] Hent. split; [|split; [reflexivity|cbn; lia]].
+  assert (Hnp : forall c0 c0', ~ StmtRel.pairs (fnames FT) [[]] [{| lab := LFun name; vars := [] |}] c0 c0').
+  { intros c0 c0' Hp. cbn in Hp. destruct Hp as [(x & _ & E & _)|[]]. discriminate. }
+  constructor; cbn [locals captured cur store rout cells frames out push_frame with_frames length skipn]; try reflexivity; try assumption.
   - cbn [StmtRel.Rfr]. split; [|reflexivity]. intros x Hx. cbn. exact Logic.I.
-  - intros c1 c1' c2 c2' H1. cbn in H1. destruct H1 as [(x & _ & E & _)|[]]. discriminate.
+  - intros c1 c1' c2 c2' H1. exfalso. exact (Hnp _ _ H1).
   - intros x Hx. cbn in Hx. congruence.
   - cbn. split; [intros y Hy; congruence|exact Logic.I].
   - split.
-    + intros cy w Hq. split; [exact Hq|]. intros c0 Hp. cbn in Hp. destruct Hp as [(x & _ & E & _)|[]]. discriminate.
-    + intros c0 v Hq. split; [exact Hq|]. intros c0' Hp. cbn in Hp. destruct Hp as [(x & _ & E & _)|[]]. discriminate.
+    + intros cy w Hq. split; [exact Hq|]. intros c0. apply Hnp.
+    + intros c0 v Hq. split; [exact Hq|]. intros c0'. apply Hnp.
   - constructor; [constructor|exact Hnd].
-  - split; [intros cy w (f & c0 & ce & cbf & E & _); discriminate|intros c0 v (f & c0' & ce & cbf & ps & body & E & _); discriminate].
-  - intros f c0 c0' ce cbf E. discriminate.
+  - split.
+    + intros cy w Hq. split; [exact (Fv cy w Hq)|]. intros c0. apply Hnp.
+    + intros c0 v Hq. split; [exact (Fs c0 v Hq)|]. intros c0'. apply Hnp.
+  - intros f c0 c0' ce cb' E k Hk. cbn [length] in Hk. assert (k = 0) by lia. subst k. cbn [skipn app lookup_scopes assoc].
+    destruct (Hent f c0 c0' ce cb' E) as (H1 & m & -> & H2). split; [exact H1|].
+    unfold lookup_fs. cbn [find_in_function vars assoc lab special]. exact H2.
 Qed.
 
-(* ================================================================ a call of a closure-free function *)
-Definition call_res (prog : program) (loc : str) (argv : list value) (cbf : option (list (str * N)))
-           (s : rstate) (g1 : gstate) (r : eres) : Prop :=
-  match r with
-  | EVal v s' => first_order v /\ exists fuel' g2,
-        run_fn fuel' prog loc argv cbf g1 = RDone (Some (inj v)) g2 /\ val_keep s s' g1 g2
-  | ENoVal s' => exists fuel' g2, run_fn fuel' prog loc argv cbf g1 = RDone None g2 /\ val_keep s s' g1 g2
-  | EFail fl s' => fail_post fl (exists fuel' e g2,
-        run_fn fuel' prog loc argv cbf g1 = RFail e g2 /\ err_rel_s fl e /\ out g2 = rout s')
-  | EFuel => True
-  end.
-
-Lemma keep_of_Rg : forall base s g1 env' s' g', Rg base [] [] [] (fun f : str => f) None (call_pins s g1) env' s' g' ->
+Lemma keep_of_Rg : forall base sv s g1 env' s' g', Rg base FT [] fcells cbf sv name fpins (call_pins s g1) env' s' g' ->
   (forall c0 v, sget s c0 = Some v -> sget s' c0 = Some v) /\ (forall c0 w, cell_get g1 c0 = Some w -> cell_get g' c0 = Some w).
 Proof.
-  intros base s g1 env' s' g' HG. destruct (Rg_pins _ _ _ _ _ _ _ _ _ HG) as [H1 H2]. split.
+  intros base sv s g1 env' s' g' HG. destruct (Rg_pins _ _ _ _ _ _ _ _ _ _ _ HG) as [H1 H2]. split.
   - intros c0 v Hv. exact (proj1 (H2 c0 v Hv)).
   - intros c0 w Hw. exact (proj1 (H1 c0 w Hw)).
 Qed.
 
-Theorem fun_sim : forall prog loc ps body tail,
+(* ================================================================ a call of a function that may call the functions of FT
+   (through its captured cells) and itself (`self`) *)
+Theorem fun_sim : forall ps body cenv tail,
+  selfv = Some (RClos ps body cenv) ->
   let fcode := pcodeP 0 ps ++ strip (bitems 1 0 None body) ++ tail in
-  assoc loc prog = Some fcode ->
+  assoc name prog = Some fcode ->
   (tail = [mkI OP_VOID []; mkI OP_RET []] \/ (tail = [] /\ ends_ret body = true)) ->
-  NoDup ps -> forallb src_nameb ps = true -> ok_block [] false (rev ps) body = true ->
+  NoDup ps -> forallb src_nameb ps = true -> (forall x, In x ps -> ~ In x (fnames FT)) ->
+  ok_block FT (Some ps) false (rev ps) body = true ->
   small (1 + 2 * length fcode + 8) ->
-  forall fuel vs s g1 cenv,
-  Forall first_order vs -> length vs = length ps -> out g1 = rout s -> frames_nd (frames g1) ->
-  call_res prog loc (map inj vs) None s g1 (call_clos_ fuel (RClos ps body cenv) vs s).
+  (forall f c c' ce cb', assoc f fcells = Some (c, c', ce, cb') ->
+     lookup_scopes f cenv = Some c /\ exists m, cbf = Some m /\ assoc f m = Some c') ->
+  forall fuel,
+  (forall fuel', fuel' < fuel -> call_ok FT fcells floc fpins prog fuel') ->
+  (forall fuel', fuel' < fuel -> callee_ok fpins prog fuel' ps body cenv name cbf) ->
+  callee_ok fpins prog fuel ps body cenv name cbf.
 Proof.
-  intros prog loc ps body tail fcode Hcode Htail Hnd Hsrc Hok Hsm fuel vs s g1 cenv Hfo Hlen Ho Hnd1.
+  intros ps body cenv tail Eself fcode Hcode Htail Hnd Hsrc Hpnf Hok Hsm Hent fuel Hcall Hslf vs s g1 Hfo Hlen Ho Hnd1 Hfv.
   unfold call_clos_.
-  set (fv := RClos ps body cenv).
+  set (fv := RClos ps body cenv) in *.
   set (pinsC := call_pins s g1).
   set (env0 := {| locals := [[]]; captured := cenv; cur := Some fv |}).
-  set (a0 := act0 loc (map inj vs) None). set (gP := push_frame g1 (LFun loc)).
-  pose proof (Rst_entry loc (map inj vs) s g1 cenv (Some fv) Ho Hnd1) as HR0. fold pinsC env0 a0 gP in HR0.
+  set (a0 := act0 name (map inj vs) cbf). set (gP := push_frame g1 (LFun name)).
+  pose proof (Rst_entry (map inj vs) s g1 cenv ltac:(rewrite Eself; discriminate) Ho Hnd1 Hfv Hent) as HR0.
+  rewrite Eself in HR0. fold pinsC env0 a0 gP in HR0.
   assert (Hlenc : length fcode = 2 * length ps + length (strip (bitems 1 0 None body)) + length tail).
   { unfold fcode. rewrite !app_length, pcodeP_length. lia. }
   assert (Hpar : 2 * (0 + length ps) <= length fcode) by lia.
   (* the parameters *)
   assert (Hprm : match bind_params ps vs s [] with
                  | Some (sc, s') => exists a' g' env',
-                     xrun prog loc fcode a0 gP a' g' /\ a_ip a' = 2 * length ps /\
-                     Rst (frames g1) [] [] [] (fun f : str => f) None pinsC env' s' a' g' /\
+                     xrun prog name fcode a0 gP a' g' /\ a_ip a' = 2 * length ps /\
+                     Rst (frames g1) FT [] fcells cbf (Some fv) name fpins pinsC env' s' a' g' /\
                      locals env' = [sc] /\ captured env' = cenv /\ cur env' = Some fv /\
-                     bound_in [] [] (rev ps) env' /\ act_same a0 a'
+                     bound_in FT [] (rev ps) env' /\ act_same a0 a'
                  | None => False end).
-  { pose proof (params_run prog (frames g1) loc fcode ps vs 0 [] [] pinsC a0 gP env0 s vs
+  { rewrite <- Eself.
+    pose proof (params_run (frames g1) fcode ps vs 0 [] [] pinsC a0 gP env0 s vs
                     ltac:(intros j i Hj; unfold fcode; cbn [Nat.mul Nat.add]; rewrite nth_error_app1; [exact Hj|apply nth_error_Some; congruence])
-                    eq_refl eq_refl ltac:(intros j v Hj; exact Hj) HR0 eq_refl
+                    eq_refl eq_refl ltac:(intros j v Hj; exact Hj) ltac:(rewrite Eself; exact HR0) eq_refl
                     ltac:(split; [intros x; cbn; split; [congruence|intros [[]|[]]]|intros x []])
-                    Hnd ltac:(intros x _ []) Hsrc Hfo Hlen
+                    Hnd ltac:(intros x _ []) Hsrc Hpnf Hfo Hlen
                     ltac:(eapply small_le; [|exact Hsm]; rewrite Hlenc; lia) Hpar) as H.
     destruct (bind_params ps vs s []) as [[sc s']|]; [|exact H].
     destruct H as (a' & g' & env' & R & Hip & HR & El & Ec & Eu & Hb & Ha & _).
-    exists a', g', env'. rewrite app_nil_r in Hb. cbn [Nat.add] in Hip. auto 10. }
+    exists a', g', env'. rewrite app_nil_r in Hb. cbn [Nat.add] in Hip.
+    split; [exact R|]. split; [exact Hip|]. split; [exact HR|]. split; [exact El|]. split; [exact Ec|].
+    split; [rewrite Eself; exact Eu|]. split; [exact Hb|exact Ha]. }
   destruct (bind_params ps vs s []) as [[sc s1]|]; [|contradiction].
   destruct Hprm as (a1 & gq & env1 & R1 & Hip1 & HR1 & El1 & Ec1 & Eu1 & Hb1 & Ha1).
   assert (Eenv : env1 = {| locals := [sc]; captured := cenv; cur := Some fv |}) by (rewrite (fenv_eta env1), El1, Ec1, Eu1; reflexivity).
   subst env1.
   (* the body *)
-  pose proof (cblock_correct (frames g1) [] [] [] (fun f => f) None HL0 HF0 HK0 [] body (rev ps) Hok 1
-                {| fid := 0; lreg := 0; fbuf := [] |} pinsC prog loc (pcodeP 0 ps) tail a1 gq {| locals := [sc]; captured := cenv; cur := Some fv |} s1 fuel) as H.
-  cbv zeta in H. rewrite (cblockT_ok [] 1 body [] false (rev ps) None _ Hok) in H. cbn [fst lreg] in H. fold fcode in H.
+  pose proof (cblock_correct (frames g1) FT [] fcells floc cbf (HL0 FT) Hfun0 Hfck (Some ps) (Some fv) name
+                ltac:(intros ps0 E; inversion E; subst ps0; exists body, cenv; reflexivity) fpins Hgpv Hgps
+                [] body (rev ps) Hok 1
+                {| fid := 0; lreg := 0; fbuf := [] |} pinsC prog name (pcodeP 0 ps) tail a1 gq {| locals := [sc]; captured := cenv; cur := Some fv |} s1 fuel) as H.
+  cbv zeta in H. rewrite (cblockT_ok [] 1 body FT (Some ps) false (rev ps) None _ Hok) in H. cbn [fst lreg] in H. fold fcode in H.
   rewrite pcodeP_length in H.
   specialize (H ltac:(destruct Htail as [->|[-> He]]; [left; discriminate|right; exact He]) Hsm Hip1
-                ltac:(rewrite (proj2 (proj2 Ha1)); reflexivity) HR1 Hb1
-                ltac:(intros fuel' _ f ps0 body0 c0 c0' ce cbf vs0 s0 g0 E; discriminate)).
+                ltac:(rewrite (proj2 (proj2 Ha1)); reflexivity) HR1 Hb1 Hcall
+                ltac:(intros fuel' Hlt ps0 body0 cenv0 E; inversion E; subst ps0 body0 cenv0; exact (Hslf fuel' Hlt))).
   destruct (exec_block fuel {| locals := [sc]; captured := cenv; cur := Some fv |} body s1) as [sig env2 s2|fl s2|];
-    cbn [call_res]; [| |exact Logic.I].
+    [| |exact Logic.I].
   2:{ (* the body fails *)
       eapply fail_post_map; [|exact H]. intros (e & g' & Hf & Hr & Hof).
-      destruct (run_fn_fail prog loc fcode (map inj vs) None g1 e g' Hcode ltac:(eapply xrun_fail; [exact R1|exact Hf])) as [fuel' Hrun].
+      destruct (run_fn_fail prog name fcode (map inj vs) cbf g1 e g' Hcode ltac:(eapply xrun_fail; [exact R1|exact Hf])) as [fuel' Hrun].
       exists fuel', e, g'. auto. }
   destruct sig as [| | |[v|]]; try contradiction.
   - (* the body completes without `return`: no value *)
     destruct H as (a2 & g2 & R2 & Hip2 & (HG2 & Hops2 & Hss2) & Ha2 & Hd2 & _ & _).
     pose proof (same_tl_length {| locals := [sc]; captured := cenv; cur := Some fv |} env2 ltac:(cbn; discriminate) Hd2) as Hl2.
     cbn [locals length] in Hl2.
-    pose proof (Rg_base _ _ _ _ _ _ _ _ _ HG2) as Hbase. rewrite Hl2 in Hbase.
-    destruct (keep_of_Rg _ _ _ _ _ _ HG2) as [Ks Kc].
-    destruct (frames g2) as [|f2 fs2] eqn:Ef2; [exfalso; exact (proj2 (Rfr_ne _ _ _ _ (Rg_fr _ _ _ _ _ _ _ _ _ HG2)) Ef2)|].
+    pose proof (Rg_base _ _ _ _ _ _ _ _ _ _ _ HG2) as Hbase. rewrite Hl2 in Hbase.
+    destruct (keep_of_Rg _ _ _ _ _ _ _ HG2) as [Ks Kc].
+    destruct (frames g2) as [|f2 fs2] eqn:Ef2; [exfalso; exact (proj2 (Rfr_ne _ _ _ _ (Rg_fr _ _ _ _ _ _ _ _ _ _ _ HG2)) Ef2)|].
     cbn [skipn] in Hbase. subst fs2.
-    pose proof (Rg_drop _ _ _ _ _ _ _ _ _ HG2) as Hdrop. rewrite Ef2 in Hdrop.
+    pose proof (Rg_drop _ _ _ _ _ _ _ _ _ _ _ HG2) as Hdrop. rewrite Ef2 in Hdrop.
     assert (Hkeep : forall gf, frames gf = frames g1 -> out gf = out g2 -> cells gf = cells g2 -> val_keep s s2 g1 gf).
-    { intros gf F1 F2 F3. split; [exact F1|]. split; [rewrite F2; exact (Rg_out _ _ _ _ _ _ _ _ _ HG2)|]. split; [exact Ks|].
+    { intros gf F1 F2 F3. split; [exact F1|]. split; [rewrite F2; exact (Rg_out _ _ _ _ _ _ _ _ _ _ _ HG2)|]. split; [exact Ks|].
       intros c0 w Hw. unfold cell_get. rewrite F3. exact (Kc c0 w Hw). }
     destruct Htail as [->|[-> Her]].
     + (* void; ret *)
-      assert (Hl : exists gf, (forall f0 k, loop rcT (run_fn f0 prog) loc fcode (S (S (S k))) a2 g2 = RDone None gf) /\
+      assert (Hl : exists gf, (forall f0 k, loop rcT (run_fn f0 prog) name fcode (S (S (S k))) a2 g2 = RDone None gf) /\
                               frames gf = frames g1 /\ out gf = out g2 /\ cells gf = cells g2).
       { eexists. split; [intros f0 k|].
         - cbn [loop]. rewrite Hip2. unfold fcode.
@@ -283,31 +311,32 @@ Proof.
           cbn [add_trace frames]. rewrite Ef2, Hdrop. reflexivity.
         - cbn [with_frames frames out cells add_trace]. auto. }
       destruct Hl as (gf & Hl & F1 & F2 & F3).
-      destruct (run_fn_finish prog loc fcode (map inj vs) None g1 a2 g2 _ Hcode ltac:(eapply xrun_trans; [exact R1|exact R2]) Hl) as [fuel' Hrun].
+      destruct (run_fn_finish prog name fcode (map inj vs) cbf g1 a2 g2 _ Hcode ltac:(eapply xrun_trans; [exact R1|exact R2]) Hl) as [fuel' Hrun].
       exists fuel', gf. split; [exact Hrun|]. apply Hkeep; assumption.
     + (* the code ends here: the interpreter pops the function frame *)
-      assert (Hl : forall f0 k, loop rcT (run_fn f0 prog) loc fcode (S (S (S k))) a2 g2 = RDone None (with_frames g2 (frames g1))).
+      assert (Hl : forall f0 k, loop rcT (run_fn f0 prog) name fcode (S (S (S k))) a2 g2 = RDone None (with_frames g2 (frames g1))).
       { intros f0 k. cbn [loop]. rewrite Hip2. unfold fcode. rewrite app_nil_r.
         replace (nth_error (pcodeP 0 ps ++ strip (bitems 1 0 None body)) (2 * length ps + length (strip (bitems 1 0 None body)))) with (@None instr).
         - unfold pop_frame. rewrite Ef2. reflexivity.
         - symmetry. apply nth_error_None. rewrite app_length, pcodeP_length. lia. }
-      destruct (run_fn_finish prog loc fcode (map inj vs) None g1 a2 g2 _ Hcode ltac:(eapply xrun_trans; [exact R1|exact R2]) Hl) as [fuel' Hrun].
+      destruct (run_fn_finish prog name fcode (map inj vs) cbf g1 a2 g2 _ Hcode ltac:(eapply xrun_trans; [exact R1|exact R2]) Hl) as [fuel' Hrun].
       exists fuel'. eexists. split; [exact Hrun|]. apply Hkeep; reflexivity.
   - (* return v *)
     destruct H as (env3 & a2 & g2 & R2 & Hi2 & Hops2 & Hfov & HG2 & Ha2). split; [exact Hfov|].
-    destruct (keep_of_Rg _ _ _ _ _ _ HG2) as [Ks Kc].
-    pose proof (Rg_drop _ _ _ _ _ _ _ _ _ HG2) as Hdrop.
-    assert (Hl : exists gf, (forall f0 k, loop rcT (run_fn f0 prog) loc fcode (S (S (S k))) a2 g2 = RDone (Some (inj v)) gf) /\
+    destruct (keep_of_Rg _ _ _ _ _ _ _ HG2) as [Ks Kc].
+    pose proof (Rg_drop _ _ _ _ _ _ _ _ _ _ _ HG2) as Hdrop.
+    assert (Hl : exists gf, (forall f0 k, loop rcT (run_fn f0 prog) name fcode (S (S (S k))) a2 g2 = RDone (Some (inj v)) gf) /\
                             frames gf = frames g1 /\ out gf = out g2 /\ cells gf = cells g2).
     { eexists. split; [intros f0 k|].
       - cbn [loop]. rewrite Hi2. unfold Model.exec. change (decode (mkI OP_RET [])) with (DOk DRet). cbn [exec_d].
         rewrite Hops2. cbn [add_trace frames]. rewrite Hdrop. reflexivity.
       - cbn [with_frames frames out cells add_trace]. auto. }
     destruct Hl as (gf & Hl & F1 & F2 & F3).
-    destruct (run_fn_finish prog loc fcode (map inj vs) None g1 a2 g2 _ Hcode ltac:(eapply xrun_trans; [exact R1|exact R2]) Hl) as [fuel' Hrun].
-    exists fuel', gf. split; [exact Hrun|]. split; [exact F1|]. split; [rewrite F2; exact (Rg_out _ _ _ _ _ _ _ _ _ HG2)|]. split; [exact Ks|].
+    destruct (run_fn_finish prog name fcode (map inj vs) cbf g1 a2 g2 _ Hcode ltac:(eapply xrun_trans; [exact R1|exact R2]) Hl) as [fuel' Hrun].
+    exists fuel', gf. split; [exact Hrun|]. split; [exact F1|]. split; [rewrite F2; exact (Rg_out _ _ _ _ _ _ _ _ _ _ _ HG2)|]. split; [exact Ks|].
     intros c0 w Hw. unfold cell_get. rewrite F3. exact (Kc c0 w Hw).
 Qed.
+End Callee.
 
 (* ================================================================ the code generator on a function literal *)
 Section FnCode.
@@ -365,10 +394,10 @@ Proof.
   destruct it; cbn [app resolve]; now rewrite IH.
 Qed.
 
-Lemma sitems_snoc : forall FT il B c lr sl st, ok_stmt FT il B st = true ->
+Lemma sitems_snoc : forall FT SP il B c lr sl st, ok_stmt FT SP il B st = true ->
   exists pre last, sitems c lr sl st = pre ++ [last] /\ (ret_item last = true -> is_ret st = true).
 Proof.
-  intros FT il B c lr sl st H. destruct st; try discriminate.
+  intros FT SP il B c lr sl st H. destruct st; try discriminate.
   - eexists. eexists. split; [cbn [sitems]; reflexivity|discriminate].
   - exists (map CI (pcode (S c) e) ++ [I OP_BIN_OP_ASSIGN [binop_sym o ++ [61%N]; x]]), (I OP_VOID []).
     split; [cbn [sitems]; now rewrite <- app_assoc|discriminate].
@@ -401,38 +430,69 @@ Proof.
 Qed.
 Lemma bitems_app : forall c lr sl l1 l2, bitems c lr sl (l1 ++ l2) = bitems c lr sl l1 ++ bitems c lr sl l2.
 Proof. induction l1 as [|x l IH]; intros l2; [reflexivity|]. cbn [app bitems]. now rewrite IH, app_assoc. Qed.
-Lemma ok_block_snoc : forall FT il B l st, ok_block FT il B (l ++ [st]) = true -> exists B', ok_stmt FT il B' st = true.
+Lemma ok_block_snoc : forall FT SP il B l st, ok_block FT SP il B (l ++ [st]) = true -> exists B', ok_stmt FT SP il B' st = true.
 Proof.
-  intros FT il. intros B l. revert B. induction l as [|x l IH]; intros B st H; cbn [app ok_block] in H.
+  intros FT SP il. intros B l. revert B. induction l as [|x l IH]; intros B st H; cbn [app ok_block] in H.
   - apply Bool.andb_true_iff in H as [H _]. eauto.
   - apply Bool.andb_true_iff in H as [_ H]. eauto.
 Qed.
 
-Lemma ends_in_ret_body : forall FT B c lr body, ok_block FT false B body = true ->
+Lemma ends_in_ret_body : forall FT SP B c lr body, ok_block FT SP false B body = true ->
   ends_in_ret (bitems c lr None body) = true -> ends_ret body = true.
 Proof.
-  intros FT B c lr body Hok H.
+  intros FT SP B c lr body Hok H.
   destruct (rev body) as [|st rl] eqn:E.
   - apply (f_equal (@rev stmt)) in E. rewrite rev_involutive in E. subst body. discriminate.
   - apply (f_equal (@rev stmt)) in E. rewrite rev_involutive in E. cbn [rev] in E. subst body.
-    rewrite ends_ret_snoc. destruct (ok_block_snoc _ _ _ _ _ Hok) as [B' Hst].
-    destruct (sitems_snoc FT false B' c lr None st Hst) as (pre & last & Es & Hl). apply Hl.
+    rewrite ends_ret_snoc. destruct (ok_block_snoc _ _ _ _ _ _ Hok) as [B' Hst].
+    destruct (sitems_snoc FT SP false B' c lr None st Hst) as (pre & last & Es & Hl). apply Hl.
     rewrite bitems_app in H. cbn [bitems] in H. rewrite app_nil_r, Es, app_assoc in H.
     unfold ends_in_ret in H. rewrite rev_app_distr in H. cbn [rev app] in H. destruct last; [exact H|discriminate|discriminate].
 Qed.
 
 (* ================================================================ modules: function definitions, then the main code *)
-Definition def_stmt (d : str * (list str * list stmt)) : stmt := SAssign (fst d) (EFn (fst (snd d)) (snd (snd d))).
+Definition fdef := (str * (list str * list stmt))%type.
+Definition def_stmt (d : fdef) : stmt := SAssign (fst d) (EFn (fst (snd d)) (snd (snd d))).
 
 (* the compiled code of a function *)
 Definition fcode_of (ps : list str) (body : list stmt) : list instr :=
   pcodeP 0 ps ++ strip (bitems 1 0 None body) ++ strip (ftail (bitems 1 0 None body)).
 
-(* every function of the table is closure-free and in the fragment *)
-Definition fn_ok (d : str * (list str * list stmt)) : Prop :=
+(* the module scope after the definitions FT (cells k, k+1, ...) *)
+Fixpoint dscope (k : nat) (FT : ftab) : scope :=
+  match FT with [] => [] | (f, _) :: t => (f, N.of_nat k) :: dscope (S k) t end.
+
+(* what a function captures: the earlier functions it mentions *)
+Definition caps_of (d : fdef) : list str := free_vars (fst (snd d)) (snd (snd d)).
+Definition vis (caps : list str) (P : ftab) : ftab := filter (fun d => mem_str (fst d) caps) P.
+Fixpoint capmap (sc : scope) (ns : list str) : list (str * N) :=
+  match ns with
+  | [] => []
+  | n :: ns => match assoc n sc with Some c => assoc_set n c (capmap sc ns) | None => capmap sc ns end
+  end.
+Definition fcb (pre : ftab) (d : fdef) : option (list (str * N)) :=
+  match caps_of d with [] => None | ns => Some (capmap (dscope 0 pre) ns) end.
+
+(* a function of the table: parameters distinct source names; it mentions (= captures) only earlier functions of the
+   table, calls them / itself with call-free arguments, and is otherwise in the fragment *)
+Definition fn_ok (pre : ftab) (d : fdef) : Prop :=
   let '(f, (ps, body)) := d in
-  src_nameb f = true /\ NoDup ps /\ forallb src_nameb ps = true /\ ok_block [] false (rev ps) body = true /\
-  free_vars ps body = [] /\ small (1 + 2 * length (fcode_of ps body) + 8).
+  let caps := free_vars ps body in
+  src_nameb f = true /\ NoDup ps /\ forallb src_nameb ps = true /\
+  forallb (fun n => mem_str n (fnames pre)) caps = true /\
+  (forall x, In x ps -> ~ In x (fnames (vis caps pre))) /\
+  ok_block (vis caps pre) (Some ps) false (rev ps) body = true /\
+  small (1 + 2 * length (fcode_of ps body) + 8).
+Fixpoint fns_ok (pre FT : ftab) : Prop :=
+  match FT with [] => True | d :: t => fn_ok pre d /\ fns_ok (pre ++ [d]) t end.
+
+Lemma fns_ok_nth : forall FT pre i d, fns_ok pre FT -> nth_error FT i = Some d -> fn_ok (pre ++ firstn i FT) d.
+Proof.
+  induction FT as [|d0 t IH]; intros pre i d H Hi; [destruct i; discriminate|]. destruct H as [H0 Ht]. destruct i as [|i].
+  - cbn in Hi. inversion Hi; subst d0. cbn [firstn]. now rewrite app_nil_r.
+  - cbn [nth_error firstn] in *. replace (pre ++ d0 :: firstn i t) with ((pre ++ [d0]) ++ firstn i t) by now rewrite <- app_assoc.
+    apply IH; assumption.
+Qed.
 
 Section Module.
 Variable path : str.
@@ -440,38 +500,36 @@ Variable path : str.
 Fixpoint dfbuf (k : nat) (FT : ftab) : list (str * list instr) :=
   match FT with [] => [] | (f, (ps, body)) :: t => (fn_name path k, fcode_of ps body) :: dfbuf (S k) t end.
 Fixpoint dcode (k : nat) (FT : ftab) : list instr :=
-  match FT with [] => [] | (f, _) :: t => mkI OP_MAKE_FUNCTION [fn_name path k] :: mkI OP_STORE [f] :: dcode (S k) t end.
+  match FT with [] => [] | d :: t => mkI OP_MAKE_FUNCTION (fn_name path k :: caps_of d) :: mkI OP_STORE [fst d] :: dcode (S k) t end.
 
 Lemma dcode_length : forall FT k, length (dcode k FT) = 2 * length FT.
-Proof. induction FT as [|[f r] t IH]; intros k; cbn [dcode length]; [reflexivity|]. rewrite IH. lia. Qed.
+Proof. induction FT as [|d t IH]; intros k; cbn [dcode length]; [reflexivity|]. rewrite IH. lia. Qed.
 
 Lemma cstmt_SAssign : forall c sl x e st, cstmt path c sl (SAssign x e) st =
   let '(ce, st) := cexpr path c e st in (ce ++ [I OP_STORE [x]], st).
 Proof. reflexivity. Qed.
 
-Lemma cblock0_defs : forall FT main st, Forall fn_ok FT -> lreg st = 0 ->
+Lemma cblock0_defs : forall FT pre main st, fns_ok pre FT -> lreg st = 0 ->
   cblock0 path (map def_stmt FT ++ main) st =
   (let '(cm, st') := cblock0 path main {| fid := fid st + length FT; lreg := 0; fbuf := fbuf st ++ dfbuf (fid st) FT |} in
    (map CI (dcode (fid st) FT) ++ cm, st')).
 Proof.
-  induction FT as [|[f [ps body]] t IH]; intros main st HF Hlr.
+  induction FT as [|[f [ps body]] t IH]; intros pre main st HF Hlr.
   - cbn [map app dfbuf dcode length]. rewrite Nat.add_0_r, app_nil_r. destruct st as [fi lr fb]. cbn [lreg fid fbuf] in *. subst lr.
     destruct (cblock0 path main {| fid := fi; lreg := 0; fbuf := fb |}); reflexivity.
-  - pose proof (Forall_inv HF) as (Hf & Hnd & Hsrc & Hok & Hfv & Hsm). pose proof (Forall_inv_tail HF) as HF'.
+  - destruct HF as [(Hf & Hnd & Hsrc & Hcaps & Hpn & Hok & Hsm) HF'].
     cbn [map app cblock0]. unfold def_stmt at 1. cbn [fst snd]. rewrite cstmt_SAssign, cexpr_EFn_eq.
-    rewrite (cblockT_ok path 1 body [] false (rev ps) None st Hok). rewrite Hlr. cbv zeta.
-    rewrite Hfv. rewrite IH by (try exact HF'; reflexivity). cbn [fid lreg fbuf].
+    rewrite (cblockT_ok path 1 body _ _ false (rev ps) None st Hok). rewrite Hlr. cbv zeta. cbv beta iota.
+    rewrite (IH (pre ++ [(f, (ps, body))])) by (try exact HF'; reflexivity). cbn [fid lreg fbuf].
     replace (fid st + length ((f, (ps, body)) :: t)) with (S (fid st) + length t) by (cbn [length]; lia).
-    cbn [dfbuf dcode map]. unfold fcode_of. rewrite !strip_app, strip_map_CI. rewrite <- !app_assoc. cbn [app].
+    cbn [dfbuf dcode map fst]. unfold caps_of. cbn [fst snd]. unfold fcode_of. rewrite !strip_app, strip_map_CI. rewrite <- !app_assoc. cbn [app].
     destruct (cblock0 path main _); reflexivity.
 Qed.
 End Module.
 
 (* ================================================================ executing the definitions *)
-Fixpoint dscope (k : nat) (FT : ftab) : scope :=
-  match FT with [] => [] | (f, _) :: t => (f, N.of_nat k) :: dscope (S k) t end.
-Fixpoint dcells (path : str) (k : nat) (FT : ftab) : list value :=
-  match FT with [] => [] | _ :: t => VFun (fn_name path k) None :: dcells path (S k) t end.
+Fixpoint dcells (path : str) (pre : ftab) (FT : ftab) : list value :=
+  match FT with [] => [] | d :: t => VFun (fn_name path (length pre)) (fcb pre d) :: dcells path (pre ++ [d]) t end.
 
 Lemma dscope_app : forall P k d, dscope k (P ++ [d]) = dscope k P ++ [(fst d, N.of_nat (k + length P))].
 Proof.
@@ -479,14 +537,15 @@ Proof.
   - now rewrite Nat.add_0_r.
   - rewrite IH. cbn [fst]. replace (S k + length t) with (k + S (length t)) by lia. reflexivity.
 Qed.
-Lemma dcells_app : forall path P k d, dcells path k (P ++ [d]) = dcells path k P ++ [VFun (fn_name path (k + length P)) None].
+Lemma dcells_app : forall path P pre d, dcells path pre (P ++ [d]) = dcells path pre P ++ [VFun (fn_name path (length pre + length P)) (fcb (pre ++ P) d)].
 Proof.
-  intros path. induction P as [|x t IH]; intros k d; cbn [app dcells length].
-  - now rewrite Nat.add_0_r.
-  - rewrite IH. replace (S k + length t) with (k + S (length t)) by lia. reflexivity.
+  intros path. induction P as [|x t IH]; intros pre d; cbn [app dcells length].
+  - now rewrite Nat.add_0_r, app_nil_r.
+  - rewrite IH. rewrite app_length. cbn [length]. rewrite <- app_assoc. cbn [app].
+    replace (length pre + 1 + length t) with (length pre + S (length t)) by lia. reflexivity.
 Qed.
-Lemma dcells_length : forall path P k, length (dcells path k P) = length P.
-Proof. intros path. induction P as [|x t IH]; intros k; cbn [dcells length]; [reflexivity|now rewrite IH]. Qed.
+Lemma dcells_length : forall path P pre, length (dcells path pre P) = length P.
+Proof. intros path. induction P as [|x t IH]; intros pre; cbn [dcells length]; [reflexivity|now rewrite IH]. Qed.
 Lemma assoc_dscope_none : forall f P k, ~ In f (fnames P) -> assoc f (dscope k P) = (None : option N).
 Proof.
   intros f. induction P as [|[f0 r] t IH]; intros k H; [reflexivity|]. cbn [dscope assoc fnames map fst In] in *.
@@ -503,6 +562,34 @@ Proof.
     { intros ->. apply Hn. unfold fnames. apply in_map. eapply nth_error_In. exact Hi. }
     rewrite str_eqb_neq by exact Hne. rewrite (IH (S k) i d Hnd' Hi). f_equal. lia.
 Qed.
+Lemma assoc_dscope_in : forall FT k x, assoc x (dscope k FT) <> None <-> In x (fnames FT).
+Proof.
+  induction FT as [|[f r] t IH]; intros k x; cbn [dscope assoc fnames map fst In].
+  - split; [congruence|intros []].
+  - destruct (str_eqb f x) eqn:E.
+    + apply str_eqb_iff in E. subst x. split; [now left|congruence].
+    + split.
+      * intros H. right. exact (proj1 (IH _ _) H).
+      * intros [->|H]; [rewrite str_eqb_refl in E; discriminate|]. now apply IH.
+Qed.
+
+(* what make_function captures at module level *)
+Lemma capture_defs : forall a g name sc ns,
+  frames g = [{| lab := LFun name; vars := sc |}] -> (forall n, In n ns -> assoc n sc <> None) ->
+  capture a g ns = Some (capmap sc ns).
+Proof.
+  intros a g name sc ns Hfr. induction ns as [|n ns IH]; intros H; [reflexivity|]. cbn [capture capmap].
+  unfold lookup_var. rewrite Hfr. cbn [find_in_function vars].
+  destruct (assoc n sc) as [c|] eqn:E; [|exfalso; exact (H n (or_introl eq_refl) E)].
+  rewrite IH by (intros m Hm; apply H; now right). reflexivity.
+Qed.
+Lemma assoc_capmap : forall sc ns n c, In n ns -> assoc n sc = Some c -> assoc n (capmap sc ns) = Some c.
+Proof.
+  intros sc. induction ns as [|n0 ns IH]; intros n c Hin Hn; [destruct Hin|]. cbn [capmap].
+  destruct (list_eq_dec N.eq_dec n n0) as [->|Hne].
+  - rewrite Hn. apply assoc_set_same.
+  - destruct Hin as [->|Hin]; [congruence|]. destruct (assoc n0 sc); [rewrite assoc_set_other by exact Hne|]; now apply IH.
+Qed.
 
 Section Defs.
 Variable path : str.
@@ -514,12 +601,13 @@ Variable code : list instr.
 Record dinv (P : ftab) (env : fenv) (s : rstate) (a : act) (g : gstate) : Prop := {
   di_loc : locals env = [dscope 0 P];
   di_cap : captured env = [];
+  di_cur : cur env = None;
   di_len : length (store s) = length P;
   di_clo : forall i f ps body, nth_error P i = Some (f, (ps, body)) ->
            nth_error (store s) i = Some (RClos ps body [dscope 0 (firstn i P)]);
   di_rout : rout s = [];
   di_fr : frames g = [{| lab := LFun name; vars := dscope 0 P |}];
-  di_cells : cells g = dcells path 0 P;
+  di_cells : cells g = dcells path [] P;
   di_out : out g = [];
   di_ops : a_ops a = [];
   di_ip : a_ip a = 2 * length P;
@@ -527,43 +615,50 @@ Record dinv (P : ftab) (env : fenv) (s : rstate) (a : act) (g : gstate) : Prop :
   di_ss : a_ss a = 0
 }.
 
-Lemma dec_make_function1 : forall loc, decode (mkI OP_MAKE_FUNCTION [loc]) = DOk (DMakeFunction loc []).
+Lemma dec_make_function : forall loc ns, decode (mkI OP_MAKE_FUNCTION (loc :: ns)) = DOk (DMakeFunction loc ns).
 Proof. reflexivity. Qed.
 
 Lemma defs_run : forall Q P env s a g main fuel,
-  NoDup (fnames (P ++ Q)) -> code_at code (2 * length P) (dcode path (length P) Q) ->
+  NoDup (fnames (P ++ Q)) -> fns_ok P Q -> code_at code (2 * length P) (dcode path (length P) Q) ->
   dinv P env s a g ->
   exists env' s' a' g', xrun prog name code a g a' g' /\ dinv (P ++ Q) env' s' a' g' /\ act_same a a' /\
     (exec_block fuel env (map def_stmt Q ++ main) s = SFuel \/
      exists fuel0, exec_block fuel env (map def_stmt Q ++ main) s = exec_block fuel0 env' main s').
 Proof.
-  induction Q as [|[f [ps body]] Q IH]; intros P env s a g main fuel Hnd Hc Hinv.
+  induction Q as [|[f [ps body]] Q IH]; intros P env s a g main fuel Hnd HF Hc Hinv.
   - exists env, s, a, g. rewrite app_nil_r. split; [apply xrun_refl|]. split; [exact Hinv|]. split; [apply act_same_refl|].
     right. exists fuel. reflexivity.
-  - cbn [dcode] in Hc. apply code_at_cons in Hc as [Hi1 Hc]. apply code_at_cons in Hc as [Hi2 Hc].
-    destruct Hinv as [Hloc Hcap Hlen Hclo Hro Hfr Hce Hou Hops Hip Hcb Hss].
+  - cbn [dcode] in Hc. apply code_at_cons in Hc as [Hi1 Hc]. apply code_at_cons in Hc as [Hi2 Hc]. cbn [fst] in Hi2.
+    destruct HF as [(Hf & Hndp & Hsrc & Hcaps & Hpn & Hok & Hsm) HF'].
+    destruct Hinv as [Hloc Hcap Hcur Hlen Hclo Hro Hfr Hce Hou Hops Hip Hcb Hss].
     assert (Hfn : ~ In f (fnames P)).
     { unfold fnames in *. rewrite map_app in Hnd. cbn [map fst] in Hnd. apply NoDup_remove_2 in Hnd.
       intros Hin. apply Hnd. apply in_or_app. now left. }
+    set (d := (f, (ps, body)) : fdef) in *.
     (* the reference semantics *)
     set (fv := RClos ps body ([dscope 0 P] ++ [])).
     set (env1 := {| locals := [dscope 0 P ++ [(f, N.of_nat (length (store s)))]]; captured := captured env; cur := cur env |}).
     set (s1 := {| store := store s ++ [fv]; rout := rout s |}).
-    assert (Hex : forall fu, Eval.exec (S (S fu)) env (def_stmt (f, (ps, body))) s = SOk SigNormal env1 s1).
-    { intros fu. unfold def_stmt. cbn [fst snd]. rewrite exec_SAssign.
+    assert (Hex : forall fu, Eval.exec (S (S fu)) env (def_stmt d) s = SOk SigNormal env1 s1).
+    { intros fu. unfold def_stmt, d. cbn [fst snd]. rewrite exec_SAssign.
       change (eval (S fu) env (EFn ps body) s) with (EVal (RClos ps body (locals env ++ captured env)) s).
       rewrite Hloc, Hcap. unfold assign. rewrite Hloc. cbn [lookup_scopes]. rewrite (assoc_dscope_none f P 0 Hfn).
       unfold declare, alloc. rewrite Hloc. rewrite assoc_set_absent by (apply assoc_dscope_none; exact Hfn). reflexivity. }
     (* the machine: make_function, store *)
-    set (i1 := mkI OP_MAKE_FUNCTION [fn_name path (length P)]) in *.
-    set (a1 := set_ip (set_ops a [VFun (fn_name path (length P)) None]) (S (a_ip a))).
+    set (fw := VFun (fn_name path (length P)) (fcb P d)).
+    set (i1 := mkI OP_MAKE_FUNCTION (fn_name path (length P) :: caps_of d)) in *.
+    set (a1 := set_ip (set_ops a [fw]) (S (a_ip a))).
     set (g1 := trc name a g i1).
     assert (R1 : xrun prog name code a g a1 g1).
-    { eapply (xstep_next prog name code a g i1 _ (a_ip a) (set_ops a [VFun (fn_name path (length P)) None]));
-        [reflexivity|rewrite Hip; exact Hi1|apply dec_make_function1|]. cbn [exec_d]. now rewrite Hops. }
+    { eapply (xstep_next prog name code a g i1 _ (a_ip a) (set_ops a [fw]));
+        [reflexivity|rewrite Hip; exact Hi1|apply dec_make_function|]. cbn [exec_d]. rewrite Hops. unfold fw, fcb.
+      destruct (caps_of d) as [|n0 ns0] eqn:Ecaps; [reflexivity|].
+      fold g1. rewrite (capture_defs a g1 name (dscope 0 P) (n0 :: ns0) Hfr); [reflexivity|].
+      intros n Hn. apply assoc_dscope_in. apply mem_str_In. rewrite forallb_forall in Hcaps. apply Hcaps.
+      unfold caps_of, d in Ecaps. cbn [fst snd] in Ecaps. rewrite Ecaps. exact Hn. }
     set (i2 := mkI OP_STORE [f]) in *.
     set (g1t := trc name a1 g1 i2).
-    set (g2 := {| cells := cells g ++ [VFun (fn_name path (length P)) None];
+    set (g2 := {| cells := cells g ++ [fw];
                   frames := [{| lab := LFun name; vars := dscope 0 P ++ [(f, N.of_nat (length (cells g)))] |}];
                   out := out g; trace := trace g1t |}).
     set (a2 := set_ip (set_ops a1 []) (S (a_ip a1))).
@@ -575,10 +670,11 @@ Proof.
         cbn [find_in_function vars lab special]. rewrite (assoc_dscope_none f P 0 Hfn).
         unfold bind_local. change (frames g1t) with (frames g). rewrite Hfr. cbn [cell_new with_frames cells frames out trace lab vars].
         rewrite assoc_set_absent by (apply assoc_dscope_none; exact Hfn). reflexivity. }
-    assert (Hinv2 : dinv (P ++ [(f, (ps, body))]) env1 s1 a2 g2).
-    { constructor; cbn [env1 s1 g2 a2 a1 locals captured store rout frames cells out set_ip set_ops a_ops a_ip a_cb a_ss].
+    assert (Hinv2 : dinv (P ++ [d]) env1 s1 a2 g2).
+    { constructor; cbn [env1 s1 g2 a2 a1 locals captured cur store rout frames cells out set_ip set_ops a_ops a_ip a_cb a_ss].
       - rewrite dscope_app, Hlen. reflexivity.
       - exact Hcap.
+      - exact Hcur.
       - rewrite !app_length. cbn [length]. lia.
       - intros i f0 ps0 body0 Hi. destruct (Nat.lt_ge_cases i (length P)) as [Hlt|Hge].
         + rewrite nth_error_app1 in Hi by exact Hlt. rewrite nth_error_app1 by lia.
@@ -595,8 +691,9 @@ Proof.
       - rewrite Hip, app_length. cbn [length]. lia.
       - exact Hcb.
       - exact Hss. }
-    destruct (IH (P ++ [(f, (ps, body))]) env1 s1 a2 g2 main (pred fuel)) as (env' & s' & a' & g' & R' & Hinv' & Ha' & Hexb).
+    destruct (IH (P ++ [d]) env1 s1 a2 g2 main (pred fuel)) as (env' & s' & a' & g' & R' & Hinv' & Ha' & Hexb).
     + now rewrite <- app_assoc.
+    + exact HF'.
     + rewrite app_length. cbn [length]. replace (2 * (length P + 1)) with (S (S (2 * length P))) by lia.
       replace (length P + 1) with (S (length P)) by lia. exact Hc.
     + exact Hinv2.
@@ -613,13 +710,13 @@ Fixpoint findex (f : str) (FT : ftab) : nat :=
 Fixpoint dfc (pre : ftab) (FT : ftab) : list (str * (N * N * list scope * option (list (str * N)))) :=
   match FT with
   | [] => []
-  | d :: t => (fst d, (N.of_nat (length pre), N.of_nat (length pre), [dscope 0 pre], None)) :: dfc (pre ++ [d]) t
+  | d :: t => (fst d, (N.of_nat (length pre), N.of_nat (length pre), [dscope 0 pre], fcb pre d)) :: dfc (pre ++ [d]) t
   end.
 
 Lemma dfc_assoc : forall FT pre f x, assoc f (dfc pre FT) = Some x ->
   exists ps body, nth_error FT (findex f FT) = Some (f, (ps, body)) /\ assoc f FT = Some (ps, body) /\
     x = (N.of_nat (length pre + findex f FT), N.of_nat (length pre + findex f FT),
-         [dscope 0 (pre ++ firstn (findex f FT) FT)], None).
+         [dscope 0 (pre ++ firstn (findex f FT) FT)], fcb (pre ++ firstn (findex f FT) FT) (f, (ps, body))).
 Proof.
   induction FT as [|[f0 [ps0 body0]] t IH]; intros pre f x H; [discriminate|].
   cbn [dfc assoc fst findex] in *. destruct (str_eqb f0 f) eqn:E.
@@ -639,23 +736,49 @@ Proof.
       * intros [->|H]; [rewrite str_eqb_refl in E; discriminate|]. now apply IH.
       * intros H. right. exact (proj2 (IH _ _) H).
 Qed.
+Lemma dfc_prefix : forall P R pre f x, assoc f (dfc pre P) = Some x -> assoc f (dfc pre (P ++ R)) = Some x.
+Proof.
+  induction P as [|d t IH]; intros R pre f x H; [discriminate|]. cbn [app dfc assoc fst] in *.
+  destruct (str_eqb (fst d) f); [exact H|]. now apply IH.
+Qed.
+Lemma assoc_prefix : forall A (P R : list (str * A)) f x, assoc f P = Some x -> assoc f (P ++ R) = Some x.
+Proof.
+  intros A. induction P as [|[k v] t IH]; intros R f x H; [discriminate|]. cbn [app assoc] in *.
+  destruct (str_eqb k f); [exact H|]. now apply IH.
+Qed.
+Lemma findex_prefix : forall (P R : ftab) f, In f (fnames P) -> findex f (P ++ R) = findex f P.
+Proof.
+  induction P as [|d t IH]; intros R f H; [destruct H|]. cbn [app findex fnames map In] in *.
+  destruct (str_eqb (fst d) f) eqn:E; [reflexivity|]. f_equal. apply IH. destruct H as [H|H]; [rewrite H, str_eqb_refl in E; discriminate|exact H].
+Qed.
+Lemma assoc_filter : forall A (q : str -> bool) (l : list (str * A)) f,
+  assoc f (filter (fun d => q (fst d)) l) = if q f then assoc f l else None.
+Proof.
+  intros A q. induction l as [|[k v] t IH]; intros f; cbn [filter assoc fst]; [now destruct (q f)|].
+  destruct (q k) eqn:Ek; cbn [assoc]; destruct (str_eqb k f) eqn:E.
+  - apply str_eqb_iff in E. subst k. now rewrite Ek.
+  - apply IH.
+  - apply str_eqb_iff in E. subst k. rewrite IH, Ek. reflexivity.
+  - apply IH.
+Qed.
+Lemma In_fnames_assoc : forall (T : ftab) f, In f (fnames T) <-> assoc f T <> None.
+Proof.
+  induction T as [|[k v] t IH]; intros f; cbn [fnames map fst In assoc].
+  - split; [intros []|congruence].
+  - destruct (str_eqb k f) eqn:E.
+    + apply str_eqb_iff in E. subst k. split; [congruence|now left].
+    + split.
+      * intros [->|H]; [rewrite str_eqb_refl in E; discriminate|]. now apply IH.
+      * intros H. right. now apply IH.
+Qed.
 Lemma dscope_keys : forall FT k, map fst (dscope k FT) = fnames FT.
 Proof. induction FT as [|[f r] t IH]; intros k; cbn [dscope map fst fnames]; [reflexivity|]. f_equal. apply IH. Qed.
-Lemma assoc_dscope_in : forall FT k x, assoc x (dscope k FT) <> None <-> In x (fnames FT).
+Lemma dcells_nth : forall path FT pre i d, nth_error FT i = Some d ->
+  nth_error (dcells path pre FT) i = Some (VFun (fn_name path (length pre + i)) (fcb (pre ++ firstn i FT) d)).
 Proof.
-  induction FT as [|[f r] t IH]; intros k x; cbn [dscope assoc fnames map fst In].
-  - split; [congruence|intros []].
-  - destruct (str_eqb f x) eqn:E.
-    + apply str_eqb_iff in E. subst x. split; [now left|congruence].
-    + split.
-      * intros H. right. exact (proj1 (IH _ _) H).
-      * intros [->|H]; [rewrite str_eqb_refl in E; discriminate|]. now apply IH.
-Qed.
-Lemma dcells_nth : forall path FT k i, i < length FT -> nth_error (dcells path k FT) i = Some (VFun (fn_name path (k + i)) None).
-Proof.
-  intros path. induction FT as [|d t IH]; intros k i Hi; cbn [length] in Hi; [lia|]. destruct i as [|i]; cbn [dcells nth_error].
-  - now rewrite Nat.add_0_r.
-  - rewrite IH by lia. do 3 f_equal. lia.
+  intros path. induction FT as [|d0 t IH]; intros pre i d Hi; [destruct i; discriminate|]. destruct i as [|i]; cbn [dcells nth_error firstn] in *.
+  - inversion Hi; subst d0. now rewrite Nat.add_0_r, app_nil_r.
+  - rewrite (IH _ _ _ Hi). rewrite app_length, <- app_assoc. cbn [length app]. do 3 f_equal. lia.
 Qed.
 Lemma findex_nth : forall FT f d, nth_error FT (findex f FT) = Some d -> findex f FT < length FT.
 Proof. intros FT f d H. apply nth_error_Some. congruence. Qed.
@@ -688,8 +811,10 @@ Proof.
   - rewrite str_eqb_neq by (intros E; exact (fn_name_module _ _ E)). apply IH.
 Qed.
 
+
 (* ================================================================ after the definitions: the statement relation holds *)
 Definition mfloc (path : str) (FT : ftab) (f : str) : str := fn_name path (findex f FT).
+Definition mpins (path : str) (FT : ftab) : pinset := fpins_of FT (dfc [] FT) (mfloc path FT).
 
 Lemma no_pairs_defs : forall FT name c c',
   ~ StmtRel.pairs (fnames FT) [dscope 0 FT] [{| lab := LFun name; vars := dscope 0 FT |}] c c'.
@@ -700,9 +825,9 @@ Qed.
 
 Lemma Rst_defs : forall path name FT env s a g,
   NoDup (fnames FT) -> dinv path name FT env s a g ->
-  Rst [] FT (fnames FT) (dfc [] FT) (mfloc path FT) None no_pins env s a g /\ bound_in FT (fnames FT) [] env.
+  Rst [] FT (fnames FT) (dfc [] FT) None None name (mpins path FT) no_pins env s a g /\ bound_in FT (fnames FT) [] env.
 Proof.
-  intros path name FT env s a g Hnd [Hloc Hcap Hlen Hclo Hro Hfr Hce Hou Hops Hip Hcb Hss].
+  intros path name FT env s a g Hnd [Hloc Hcap Hcur Hlen Hclo Hro Hfr Hce Hou Hops Hip Hcb Hss].
   split; [split; [|split; [exact Hops|rewrite Hloc, Hss; cbn; lia]]|].
   - constructor; rewrite ?Hloc, ?Hfr, ?Hcap, ?Hce.
     + cbn [StmtRel.Rfr]. split; [|reflexivity]. intros x Hx. cbn [lookup_scopes find_in_function vars lab special].
@@ -717,8 +842,8 @@ Proof.
     + constructor; [|constructor]. cbn [vars]. unfold keys_nd. now rewrite dscope_keys.
     + split.
       * intros cy w (f & c0 & ce & cbf & E & ->). destruct (dfc_assoc _ _ _ _ E) as (ps & body & H1 & H2 & H3).
-        inversion H3; subst. cbn [length Nat.add]. rewrite Nat2N.id. split; [|intros c; apply no_pairs_defs].
-        rewrite dcells_nth by (eapply findex_nth; exact H1). reflexivity.
+        inversion H3; subst. cbn [length Nat.add app]. rewrite Nat2N.id. split; [|intros c; apply no_pairs_defs].
+        rewrite (dcells_nth path FT [] _ _ H1). reflexivity.
       * intros c0 v (f & c0' & ce & cbf & ps & body & E & E2 & ->). destruct (dfc_assoc _ _ _ _ E) as (ps' & body' & H1 & H2 & H3).
         rewrite H2 in E2. inversion E2; subst ps' body'. inversion H3; subst. cbn [length Nat.add app]. rewrite Nat2N.id.
         split; [|intros c; apply no_pairs_defs]. exact (Hclo _ _ _ _ H1).
@@ -726,6 +851,8 @@ Proof.
       destruct (dfc_assoc _ _ _ _ E) as (ps & body & H1 & H2 & H3). inversion H3; subst. cbn [length Nat.add].
       pose proof (assoc_dscope_nth FT 0 _ _ Hnd H1) as Ha. cbn [fst Nat.add] in Ha.
       unfold lookup_fs. cbn [lookup_scopes find_in_function vars]. rewrite Ha. split; reflexivity.
+    + exact Hcur.
+    + reflexivity.
   - split; [|intros x []]. intros x. rewrite Hloc. cbn [lookup_scopes]. split.
     + intros H. right. apply (assoc_dscope_in FT 0 x). destruct (assoc x (dscope 0 FT)); [congruence|exact H].
     + intros [[]|H]. apply (assoc_dscope_in FT 0 x) in H. destruct (assoc x (dscope 0 FT)); [congruence|exact H].
@@ -734,23 +861,115 @@ Qed.
 Lemma strip_ftail : forall cb, strip (ftail cb) = [mkI OP_VOID []; mkI OP_RET []] \/ (strip (ftail cb) = [] /\ ends_in_ret cb = true).
 Proof. intros cb. unfold ftail. destruct (ends_in_ret cb); [right; split; reflexivity|left; reflexivity]. Qed.
 
-Lemma call_ok_defs : forall path FT prog fuel, Forall fn_ok FT ->
-  (forall i f ps body, nth_error FT i = Some (f, (ps, body)) -> assoc (fn_name path i) prog = Some (fcode_of ps body)) ->
-  call_ok FT (dfc [] FT) (mfloc path FT) prog fuel.
+Lemma findex_nodup : forall FT i d, NoDup (fnames FT) -> nth_error FT i = Some d -> findex (fst d) FT = i.
 Proof.
-  intros path FT prog fuel HF Hprog f ps body c0 c0' cenv cbf vs s g1 Ef Ec Hvs Hlen Ho Hnd _.
-  destruct (dfc_assoc _ _ _ _ Ec) as (ps' & body' & H1 & H2 & H3). rewrite H2 in Ef. inversion Ef; subst ps' body'.
-  inversion H3; subst. clear H3.
-  pose proof (proj1 (Forall_forall _ _) HF _ (nth_error_In _ _ H1)) as (Hf & Hndp & Hsrc & Hok & Hfv & Hsm).
-  pose proof (fun_sim prog (mfloc path FT f) ps body (strip (ftail (bitems 1 0 None body)))) as HS. cbv zeta in HS.
-  fold (fcode_of ps body) in HS. specialize (HS (Hprog _ _ _ _ H1)).
+  induction FT as [|d0 t IH]; intros i d Hnd Hi; [destruct i; discriminate|].
+  cbn [fnames map] in Hnd. inversion Hnd as [|? ? Hn Hnd']; subst. destruct i as [|i]; cbn [nth_error findex] in *.
+  - inversion Hi; subst d0. now rewrite str_eqb_refl.
+  - rewrite str_eqb_neq; [f_equal; now apply IH|]. intros E. apply Hn. rewrite E. unfold fnames. apply in_map. eapply nth_error_In. exact Hi.
+Qed.
+Lemma NoDup_app_l : forall (A : Type) (l r : list A), NoDup (l ++ r) -> NoDup l.
+Proof.
+  intros A. induction l as [|x l IH]; intros r H; [constructor|]. cbn [app] in H. inversion H as [|? ? Hn Hr]; subst.
+  constructor; [intros Hin; apply Hn; apply in_or_app; now left|exact (IH _ Hr)].
+Qed.
+Lemma fns_ok_names : forall FT pre f, fns_ok pre FT -> In f (fnames FT) -> uname0 f.
+Proof.
+  induction FT as [|[f0 [ps body]] t IH]; intros pre f H Hin; [destruct Hin|]. destruct H as [H0 Ht].
+  cbn [fnames map fst In] in Hin. destruct Hin as [<-|Hin]; [exact (src_nameb_ok _ (proj1 H0))|exact (IH _ _ Ht Hin)].
+Qed.
+Lemma mpins_v : forall path FT f c c' cenv cbf, assoc f (dfc [] FT) = Some (c, c', cenv, cbf) ->
+  vpin (mpins path FT) c' (VFun (mfloc path FT f) cbf).
+Proof. intros path FT f c c' cenv cbf E. exists f, c, cenv, cbf. auto. Qed.
+Lemma mpins_s : forall path FT f c c' cenv cbf ps body, assoc f (dfc [] FT) = Some (c, c', cenv, cbf) -> assoc f FT = Some (ps, body) ->
+  spin (mpins path FT) c (RClos ps body cenv).
+Proof. intros path FT f c c' cenv cbf ps body E E2. exists f, c', cenv, cbf, ps, body. auto. Qed.
+
+(* ================================================================ every function of the table does what call_clos does:
+   induction on the position in the table (a function calls earlier ones), then on the fuel (self calls) *)
+Section Closure.
+Variable path : str.
+Variable FT : ftab.
+Variable prog : program.
+Hypothesis Hnd : NoDup (fnames FT).
+Hypothesis HF : fns_ok [] FT.
+Hypothesis Hprog : forall i f ps body, nth_error FT i = Some (f, (ps, body)) -> assoc (fn_name path i) prog = Some (fcode_of ps body).
+
+Lemma gcall_ok : forall n i f ps body, i < n -> nth_error FT i = Some (f, (ps, body)) -> forall fuel,
+  callee_ok (mpins path FT) prog fuel ps body [dscope 0 (firstn i FT)] (fn_name path i) (fcb (firstn i FT) (f, (ps, body))).
+Proof.
+  induction n as [|n IHn]; intros i f ps body Hi Hnth; [lia|].
+  destruct (Nat.eq_dec i n) as [->|Hne]; [|apply (IHn i f ps body); [lia|exact Hnth]].
+  set (P := firstn n FT). set (d := (f, (ps, body)) : fdef). set (caps := free_vars ps body).
+  pose proof (fns_ok_nth FT [] n d HF Hnth) as Hok. cbn [app] in Hok. fold P in Hok.
+  destruct Hok as (Hf & Hndp & Hsrc & Hcaps & Hpn & Hokb & Hsm). fold caps in Hcaps, Hpn, Hokb.
+  set (FTi := vis caps P) in *. set (fci := filter (fun e => mem_str (fst e) caps) (dfc [] P)).
+  assert (EFT : FT = P ++ skipn n FT) by (symmetry; apply firstn_skipn).
+  assert (HlenP : length P = n).
+  { unfold P. apply firstn_length_le. apply Nat.lt_le_incl. apply nth_error_Some. congruence. }
+  assert (HndP : NoDup (fnames P)).
+  { pose proof Hnd as H. rewrite EFT in H. unfold fnames in H. rewrite map_app in H. exact (NoDup_app_l _ _ _ H). }
+  assert (Hentry : forall f' x, assoc f' fci = Some x ->
+            In f' caps /\ exists j ps' body', j < n /\ nth_error FT j = Some (f', (ps', body')) /\ nth_error P j = Some (f', (ps', body')) /\
+              assoc f' FTi = Some (ps', body') /\ assoc f' FT = Some (ps', body') /\ assoc f' (dfc [] FT) = Some x /\
+              x = (N.of_nat j, N.of_nat j, [dscope 0 (firstn j FT)], fcb (firstn j FT) (f', (ps', body'))) /\
+              mfloc path FT f' = fn_name path j).
+  { intros f' x H. unfold fci in H. rewrite (assoc_filter _ (fun k => mem_str k caps)) in H.
+    destruct (mem_str f' caps) eqn:Em; [|discriminate]. split; [now apply mem_str_In|].
+    destruct (dfc_assoc P [] f' x H) as (ps' & body' & H1 & H2 & H3). cbn [app length Nat.add] in H3.
+    pose proof (findex_nth _ _ _ H1) as Hj. rewrite HlenP in Hj.
+    exists (findex f' P), ps', body'. split; [exact Hj|]. split; [rewrite EFT, nth_error_app1 by lia; exact H1|]. split; [exact H1|].
+    split; [unfold FTi, vis; rewrite (assoc_filter _ (fun k => mem_str k caps)), Em; exact H2|].
+    split; [rewrite EFT; now apply assoc_prefix|].
+    split; [rewrite EFT; now apply dfc_prefix|]. split.
+    - rewrite H3. pose proof Hj as Hj'. unfold P in Hj' |- *. rewrite firstn_firstn, Nat.min_l by lia. reflexivity.
+    - unfold mfloc. rewrite EFT, findex_prefix; [reflexivity|]. exact (assoc_in_fnames _ _ _ H2). }
+  assert (Hfun0i : forall f', In f' (fnames FTi) -> uname0 f').
+  { intros f' Hin. apply In_fnames_assoc in Hin. unfold FTi, vis in Hin. rewrite (assoc_filter _ (fun k => mem_str k caps)) in Hin.
+    destruct (mem_str f' caps); [|congruence]. apply In_fnames_assoc in Hin. apply (fns_ok_names FT [] f' HF).
+    rewrite EFT. unfold fnames. rewrite map_app. apply in_or_app. now left. }
+  assert (Hfcki : forall f', In f' (fnames FTi) <-> assoc f' fci <> None).
+  { intros f'. rewrite In_fnames_assoc. unfold FTi, vis, fci. rewrite !(assoc_filter _ (fun k => mem_str k caps)).
+    destruct (mem_str f' caps); [|tauto]. rewrite <- In_fnames_assoc. apply dfc_none. }
+  assert (Hgpvi : forall f' c c' cenv cbf, assoc f' fci = Some (c, c', cenv, cbf) -> vpin (mpins path FT) c' (VFun (mfloc path FT f') cbf)).
+  { intros f' c c' cenv cbf E. destruct (Hentry _ _ E) as (_ & j & ps' & body' & _ & _ & _ & _ & _ & E' & _). exact (mpins_v _ _ _ _ _ _ _ E'). }
+  assert (Hgpsi : forall f' c c' cenv cbf ps' body', assoc f' fci = Some (c, c', cenv, cbf) -> assoc f' FTi = Some (ps', body') ->
+            spin (mpins path FT) c (RClos ps' body' cenv)).
+  { intros f' c c' cenv cbf ps' body' E E2. destruct (Hentry _ _ E) as (_ & j & ps2 & body2 & _ & _ & _ & E3 & E4 & E' & _).
+    rewrite E3 in E2. inversion E2; subst ps2 body2. exact (mpins_s _ _ _ _ _ _ _ _ _ E' E4). }
+  assert (Hent : forall f' c c' ce cb', assoc f' fci = Some (c, c', ce, cb') ->
+            lookup_scopes f' [dscope 0 P] = Some c /\ exists m, fcb P d = Some m /\ assoc f' m = Some c').
+  { intros f' c c' ce cb' E. destruct (Hentry _ _ E) as (Hin & j & ps' & body' & Hj & _ & HPj & _ & _ & _ & Ex & _).
+    inversion Ex; subst c c' ce cb'.
+    pose proof (assoc_dscope_nth P 0 j _ HndP HPj) as Ha. cbn [fst Nat.add] in Ha.
+    split; [cbn [lookup_scopes]; now rewrite Ha|].
+    unfold fcb, caps_of, d. cbn [fst snd]. fold caps. destruct caps as [|n0 ns0] eqn:Ec; [destruct Hin|].
+    eexists. split; [reflexivity|]. now apply assoc_capmap. }
+  intros fuel. induction fuel as [fuel IHf] using lt_wf_ind.
+  pose proof (fun_sim prog FTi fci (mfloc path FT) (mpins path FT) Hfun0i Hfcki Hgpvi Hgpsi (fcb P d)
+                (Some (RClos ps body [dscope 0 P])) (fn_name path n) ps body [dscope 0 P]
+                (strip (ftail (bitems 1 0 None body))) eq_refl) as HS.
+  cbv zeta in HS. fold (fcode_of ps body) in HS.
   assert (Ht : strip (ftail (bitems 1 0 None body)) = [mkI OP_VOID []; mkI OP_RET []] \/
                (strip (ftail (bitems 1 0 None body)) = [] /\ ends_ret body = true)).
   { destruct (strip_ftail (bitems 1 0 None body)) as [H|[H H']]; [now left|right]. split; [exact H|].
-    exact (ends_in_ret_body [] (rev ps) 1 0 body Hok H'). }
-  specialize (HS Ht Hndp Hsrc Hok Hsm fuel vs s g1 [dscope 0 ([] ++ firstn (findex f FT) FT)] Hvs Hlen Ho Hnd).
-  unfold call_res in HS. exact HS.
+    exact (ends_in_ret_body _ _ (rev ps) 1 0 body Hokb H'). }
+  apply (HS (Hprog _ _ _ _ Hnth) Ht Hndp Hsrc Hpn Hokb Hsm Hent fuel).
+  - intros fuel' _ f' ps' body' c0 c0' cenv' cbf' Eft Efc.
+    destruct (Hentry _ _ Efc) as (_ & j & ps2 & body2 & Hj & Hnj & _ & E3 & _ & _ & Ex & Efl).
+    rewrite E3 in Eft. inversion Eft; subst ps2 body2. inversion Ex; subst c0 c0' cenv' cbf'. rewrite Efl.
+    exact (IHn j f' ps' body' Hj Hnj fuel').
+  - intros fuel' Hlt. exact (IHf fuel' Hlt).
 Qed.
+
+Lemma call_ok_defs : forall fuel, call_ok FT (dfc [] FT) (mfloc path FT) (mpins path FT) prog fuel.
+Proof.
+  intros fuel f ps body c0 c0' cenv cbf Eft Efc.
+  destruct (dfc_assoc _ _ _ _ Efc) as (ps' & body' & H1 & H2 & H3). rewrite H2 in Eft. inversion Eft; subst ps' body'.
+  inversion H3; subst. cbn [app length Nat.add]. unfold mfloc.
+  exact (gcall_ok (S (findex f FT)) (findex f FT) f ps body (Nat.lt_succ_diag_r _) H1 fuel).
+Qed.
+End Closure.
 
 Section ModuleFun.
 Variable path : str.
@@ -759,18 +978,18 @@ Definition fmodule (FT : ftab) (main : list stmt) : source := map def_stmt FT ++
 Definition fmodule_code (FT : ftab) (main : list stmt) : list instr :=
   dcode path 0 FT ++ strip (bitems 0 0 None main) ++ [ret_mod].
 
-Lemma cprogram_fmodule : forall FT main, Forall fn_ok FT -> ok_block FT false [] main = true ->
+Lemma cprogram_fmodule : forall FT main, fns_ok [] FT -> ok_block FT None false [] main = true ->
   cprogram path (fmodule FT main) = dfbuf path 0 FT ++ [(s_module_fn path, fmodule_code FT main)].
 Proof.
-  intros FT main HF Hok. unfold cprogram, fmodule. rewrite (cblock0_defs path FT main {| fid := 0; lreg := 0; fbuf := [] |} HF eq_refl). cbn [fid fbuf lreg app Nat.add].
-  rewrite cblock0_eq, (cblockT_ok path 0 main FT false [] None _ Hok). cbn [lreg fbuf].
+  intros FT main HF Hok. unfold cprogram, fmodule. rewrite (cblock0_defs path FT [] main {| fid := 0; lreg := 0; fbuf := [] |} HF eq_refl). cbn [fid fbuf lreg app Nat.add].
+  rewrite cblock0_eq, (cblockT_ok path 0 main FT None false [] None _ Hok). cbn [lreg fbuf].
   rewrite strip_app, strip_map_CI. unfold fmodule_code. now rewrite <- app_assoc.
 Qed.
 
-(* C01 for modules that define closure-free functions first and then call them (in expression position) from the
-   module's own code, at any nesting depth *)
+(* C01 for modules that define functions first (each may call itself through `self` and the earlier functions, which it
+   captures) and then call them (in expression position) from the module's own code, at any nesting depth *)
 Theorem module_fun_correct : forall FT main,
-  Forall fn_ok FT -> NoDup (fnames FT) -> ok_block FT false [] main = true ->
+  fns_ok [] FT -> NoDup (fnames FT) -> ok_block FT None false [] main = true ->
   small (2 * length (fmodule_code FT main) + 8) ->
   let p := fmodule FT main in
   forall fuel, snd (run fuel p) <> ROFuel -> no_claim (snd (run fuel p)) \/
@@ -795,6 +1014,7 @@ Proof.
   { constructor; try reflexivity. intros i f ps body Hi. destruct i; discriminate. }
   destruct (defs_run path P name mc FT [] env0 s0 a0 g00 main fuel) as (env1 & s1 & a1 & g1 & R1 & Hd1 & Ha1 & Hex).
   { exact Hnd. }
+  { exact HF. }
   { unfold mc, fmodule_code. cbn [length Nat.mul]. exact (code_at_embed [] (dcode path 0 FT) _). }
   { exact Hd0. }
   cbn [app] in Hd1.
@@ -802,23 +1022,23 @@ Proof.
   destruct Hex as [Hex|[fuel0 Hex]]; [rewrite Hex in Hnf; cbn in Hnf; congruence|].
   rewrite Hex in *. clear Hex.
   destruct (Rst_defs path name FT env1 s1 a1 g1 Hnd Hd1) as [HR HB].
-  assert (Hf0 : forall f, In f (fnames FT) -> uname0 f).
-  { intros f Hin. unfold fnames in Hin. apply in_map_iff in Hin as ([f' [ps body]] & <- & Hin).
-    exact (src_nameb_ok _ (proj1 (proj1 (Forall_forall _ _) HF _ Hin))). }
+  assert (Hf0 : forall f, In f (fnames FT) -> uname0 f) by (intros f; apply (fns_ok_names FT []); exact HF).
   pose proof (cblock_correct [] FT (fnames FT) (dfc [] FT) (mfloc path FT) None (fun f H => H) Hf0 (dfc_none FT [])
+                None None name ltac:(intros ps0 E; discriminate) (mpins path FT) (mpins_v path FT) (mpins_s path FT)
                 path main [] Hok 0 {| fid := 0; lreg := 0; fbuf := [] |} no_pins P name (dcode path 0 FT) [ret_mod]
                 a1 g1 env1 s1 fuel0) as H.
-  cbv zeta in H. rewrite (cblockT_ok path 0 main FT false [] None _ Hok) in H. cbn [fst lreg] in H.
+  cbv zeta in H. rewrite (cblockT_ok path 0 main FT None false [] None _ Hok) in H. cbn [fst lreg] in H.
   fold (fmodule_code FT main) in H. fold mc in H.
   specialize (H ltac:(left; discriminate) Hsm ltac:(rewrite (di_ip _ _ _ _ _ _ _ Hd1), dcode_length; reflexivity)
                 (di_cb _ _ _ _ _ _ _ Hd1) HR HB
-                ltac:(intros fuel' _; apply call_ok_defs; assumption)).
+                ltac:(intros fuel' _; apply call_ok_defs; assumption)
+                ltac:(intros fuel' _ ps0 body0 cenv0 E; discriminate)).
   set (fin := length (dcode path 0 FT) + length (strip (bitems 0 0 None main))) in *.
   destruct (exec_block fuel0 env1 main s1) as [sig env' s'|f s'|]; [| |cbn in Hnf; congruence].
   - destruct sig as [| | |[v|]]; try contradiction.
     2:{ destruct H as (env'' & a' & g' & Hn & Hi & Hops & Hfo & HG & Ha).
       pose proof (xrun_trans _ _ _ _ _ _ _ _ _ R1 Hn) as Hn0.
-      pose proof (Rg_drop _ _ _ _ _ _ _ _ _ HG) as Hdrop.
+      pose proof (Rg_drop _ _ _ _ _ _ _ _ _ _ _ HG) as Hdrop.
       destruct (xrun_loop _ _ _ _ _ _ _ Hn0) as (N & n & Hloop).
       set (f0 := Nat.max N (n + 1)).
       set (gf := with_frames (add_trace g' (name, N.of_nat (a_ip a'), op (mkI OP_RET []), N.of_nat (length (frames g')),
@@ -833,14 +1053,14 @@ Proof.
         cbn [loop]. rewrite Hi. unfold Model.exec. change (decode (mkI OP_RET [])) with (DOk DRet). cbn [exec_d].
         rewrite Hops. cbn [add_trace frames]. rewrite Hdrop. reflexivity. }
       right. exists (S f0). unfold execute. fold P name. rewrite Hrun. cbn [fst snd gf with_frames frames out add_trace].
-      split; [exact (Rg_out _ _ _ _ _ _ _ _ _ HG)|exact Logic.I]. }
+      split; [exact (Rg_out _ _ _ _ _ _ _ _ _ _ _ HG)|exact Logic.I]. }
     destruct H as (a' & g' & Hn & Hip & (HG & Hops & Hss) & Ha & Hd).
     pose proof (xrun_trans _ _ _ _ _ _ _ _ _ R1 Hn) as Hn0.
     destruct Hd as (Hd & HB' & _).
     assert (Hl1 : locals env1 = [dscope 0 FT]) by exact (di_loc _ _ _ _ _ _ _ Hd1).
     pose proof (same_tl_length env1 env' ltac:(rewrite Hl1; discriminate) Hd) as Hl. rewrite Hl1 in Hl. cbn [length] in Hl.
-    pose proof (Rg_base _ _ _ _ _ _ _ _ _ HG) as Hbase. rewrite Hl in Hbase.
-    pose proof (Rg_fr _ _ _ _ _ _ _ _ _ HG) as Hfr.
+    pose proof (Rg_base _ _ _ _ _ _ _ _ _ _ _ HG) as Hbase. rewrite Hl in Hbase.
+    pose proof (Rg_fr _ _ _ _ _ _ _ _ _ _ _ HG) as Hfr.
     destruct (locals env') as [|sc [|sc' l']]; cbn [length] in Hl; try discriminate.
     destruct g' as [cs' fs' o' tr']. cbn [frames out] in *.
     destruct fs' as [|f fs]; [cbn in Hfr; contradiction|]. cbn [skipn] in Hbase. subst fs.
@@ -861,7 +1081,7 @@ Proof.
       rewrite Hops. cbn [add_trace frames with_frames drop_to_function cells out trace]. rewrite Hsp. reflexivity. }
     destruct Hrun as [tr'' Hrun]. right.
     exists (S f0). unfold execute. fold P name. rewrite Hrun. cbn [fst snd frames out].
-    split; [exact (Rg_out _ _ _ _ _ _ _ _ _ HG)|exact Logic.I].
+    split; [exact (Rg_out _ _ _ _ _ _ _ _ _ _ _ HG)|exact Logic.I].
   - apply fail_post_inv in H. destruct H as [[->| ->]|H]; [left; left; reflexivity|left; right; reflexivity|right].
     destruct H as (e & g' & Hn & Hr & Ho).
     pose proof (xrun_fail _ _ _ _ _ _ _ _ _ R1 Hn) as Hn0.
